@@ -111,6 +111,7 @@ ProbeInputs ==
   \cup {Base(Optional \cap LiveIn, {})}                                                \* all optional fields absent
   \cup {Base({}, {i}) : i \in LiveIn}                                                  \* each leaf ill-typed
   \cup {Base({}, LiveIn)}                                                              \* every leaf ill-typed
+  \cup {Subst(Base({}, {}), PsIn[i], NoneV) : i \in LiveIn}                           \* each leaf PRESENT with the value None (present is not absent)
   \cup {RemoveKey(Base({}, {}), PsIn[i]) : i \in LiveIn}                               \* each mapped key missing
   \cup {RemoveKey(RemoveKey(Base({}, {}), PsIn[i]), PsIn[j]) : i \in LiveIn, j \in LiveIn}    \* two mapped keys missing (possibly at two levels)
   \cup {RemoveKey(Base({}, {j}), PsIn[i]) : i \in LiveIn, j \in LiveIn}                      \* a missing key and an ill-typed leaf
